@@ -255,7 +255,8 @@ func mergeHeaders(a, b map[string]string) map[string]string {
 func headerString(h map[string]string) string {
 	var ks []string
 	for k, v := range h {
-		if k == "Access-Control-Allow-Origin" {
+		// only the headers the layout prescribes; additional headers are free
+		if k != "Content-Type" && k != "Content-Encoding" && k != "Cache-Control" {
 			continue
 		}
 		ks = append(ks, k+": "+v)
